@@ -74,7 +74,7 @@ def fix(x):
 class Rig:
     """Builds the real doer forest of a config with per-leaf scripts and runs it."""
 
-    def __init__(self, cfg, script, q=0.25, flavours=None, rng=None, release=False, style="ctor"):
+    def __init__(self, cfg, script, q=0.25, flavours=None, rng=None, release=False, style="ctor", off=0):
         from hio.base import doing
         self.doing = doing
         # release=True: a class-based doer that is closed by a remove() call asks, from inside its exit(), for the removal of
@@ -85,6 +85,13 @@ class Rig:
         # "args" - Doist(tock) then do(doers=, limit=, tyme=); "warm" - like "args" but the same Doist object has already
         # done another run (other doers, other limit, other tyme): nothing of that run may show in this one
         self.style = style
+        # off: the real tyme is (model tyme - off) * q: with off > T0 the run starts at a negative tyme and crosses 0.0
+        self.off = off
+        self.applists = {}        # scheduler name -> the application's own list object that was handed to the scheduler
+        self.stale = None
+        if style == "warm":       # doers and DoDoers are built already wound to another tymist (as after a run elsewhere)
+            from hio.base import tyming
+            self.stale = tyming.Tymist(tyme=99.0)
         self.removing = None
         self.cfg = cfg
         self.q = q
@@ -120,14 +127,16 @@ class Rig:
                     self.objs[d] = self.make_dd(d)
                     pending.remove(d)
         self.runargs = {}
+        t0 = (cfg["T0"] - self.off) * q
+        self.applists["R"] = [self.objs[k] for k in cfg["kids"]["R"]]
         if self.style == "ctor":
-            self.doist = doing.Doist(tock=cfg["Tock"] * q, tyme=cfg["T0"] * q,
+            self.doist = doing.Doist(tock=cfg["Tock"] * q, tyme=t0,
                                      limit=(cfg["Limit"] * q if cfg["Limit"] else None),
-                                     doers=[self.objs[k] for k in cfg["kids"]["R"]])
+                                     doers=self.applists["R"])
         else:
             self.doist = doing.Doist(tock=cfg["Tock"] * q) if self.style == "args" else \
-                doing.Doist(tock=cfg["Tock"] * q, tyme=(cfg["T0"] + 7) * q)
-            self.runargs = dict(doers=[self.objs[k] for k in cfg["kids"]["R"]], tyme=cfg["T0"] * q,
+                doing.Doist(tock=cfg["Tock"] * q, tyme=t0 + 7 * q)
+            self.runargs = dict(doers=self.applists["R"], tyme=t0,
                                 limit=(cfg["Limit"] * q if cfg["Limit"] else None))
         self.objs["R"] = self.doist
 
@@ -170,7 +179,7 @@ class Rig:
         self.log.append({"k": k, "d": d, "t": t, "o": o, "a": list(a)})
 
     def quanta(self, tyme):
-        v = tyme / self.q
+        v = tyme / self.q + self.off
         return int(v) if float(v).is_integer() else v
 
     def sched_obj(self, d):
@@ -197,6 +206,9 @@ class Rig:
         s = self.sched_obj(d)
         try:
             if o == "e":
+                # the application keeps its own list of the doers it handed over and adds the new ones there first: the
+                # scheduler's membership must not depend on that list
+                self.applists[self.sched_of[d]].extend(self.objs[n] for n in a)
                 s.extend([self.objs[n] for n in a])
             elif o == "m":
                 self.removing = (s, list(a))
@@ -269,7 +281,7 @@ class Rig:
                 def exit(self):
                     rig.ev("exit", d)
                     rig.on_exit(d)
-            return L(tock=0.0)
+            return L(tock=0.0, **({"tymth": self.stale.tymen()} if self.stale else {}))
         if fl in ("gen", "re"):
             # "gen": a Doer whose recur is a generator method; "re": the library's ReDoer (its do() delegates with yield from)
             class Gn(doing.Doer if fl == "gen" else doing.ReDoer):
@@ -304,7 +316,7 @@ class Rig:
                 def exit(self):
                     rig.ev("exit", d)
                     rig.on_exit(d)
-            return Gn(tock=0.0)
+            return Gn(tock=0.0, **({"tymth": self.stale.tymen()} if self.stale else {}))
 
         def body(tymth, tock=0.0, **opts):
             # the documented generator-function doer template (doing.bareDo)
@@ -373,8 +385,9 @@ class Rig:
                 super().exit(deeds=deeds)
                 if deeds is None:
                     rig.ev("exit", d)
-        return DD(doers=[self.objs[k] for k in cfg["kids"][d]], tock=cfg["owntock"].get(d, 0) * self.q,
-                  always=bool(cfg["always"].get(d, False)))
+        self.applists[d] = [self.objs[k] for k in cfg["kids"][d]]
+        return DD(doers=self.applists[d], tock=cfg["owntock"].get(d, 0) * self.q,
+                  always=bool(cfg["always"].get(d, False)), **({"tymth": self.stale.tymen()} if self.stale else {}))
 
     def run(self, mode="do"):
         phase = None
@@ -632,8 +645,8 @@ def same_run(r1, r2):
 STYLES = ("ctor", "args", "warm")
 
 
-def replay(cfg, beh, q=0.25, seed=0, mode="do", flavours=None, release=False, style="ctor"):
-    rig = Rig(cfg, beh["script"], q=q, rng=random.Random(seed), flavours=flavours, release=release, style=style)
+def replay(cfg, beh, q=0.25, seed=0, mode="do", flavours=None, release=False, style="ctor", off=0):
+    rig = Rig(cfg, beh["script"], q=q, rng=random.Random(seed), flavours=flavours, release=release, style=style, off=off)
     return rig.run(mode)
 
 
@@ -703,11 +716,15 @@ def check_replays(ctx, prop, cfg, behs, keys=None, scales=None, modes=("do",), l
     for i, b in enumerate(behs):
         reals = {}
         multi = prop == "C06" and any(e["k"] == "recur" and e["o"] == "m" and len(set(e["a"])) > 1 for e in b["log"])
-        for mode in (list(modes) + ["do+release"] if multi else modes):
+        these = modes
+        if tuple(modes) == ("do",) and prop != "C04":       # every fourth behaviour runs through the asyncio entry point
+            these = ("ado",) if (i + ctx.seed) % 4 == 3 else ("do",)
+        for mode in (list(these) + ["do+release"] if multi else these):
             q = (scales or SCALES)[(i + ctx.seed) % len(scales or SCALES)]
             style = STYLES[((i + ctx.seed) // len(scales or SCALES)) % len(STYLES)]
+            off = (cfg["T0"] + 2 * cfg["Tock"]) if ((i + ctx.seed) % 5 == 4 and q in SCALES) else 0
             real = replay(cfg, b, q=q, seed=ctx.seed * 1000003 + i, mode="do" if mode == "do+release" else mode,
-                          release=(mode == "do+release"), style=style)
+                          release=(mode == "do+release"), style=style, off=off)
             reals[mode] = real
             cmpd = compare(cfg, b, real)
             ctx.traces += 1
@@ -717,8 +734,8 @@ def check_replays(ctx, prop, cfg, behs, keys=None, scales=None, modes=("do",), l
                      {"config": label, "script": b["script"], "model_log_head": b["log"][:6], "phase": b["phase"]}
                      if i % 97 == 3 else None)
             bad = [m for k in keys for m in cmpd[k]]
-            case = {"config": cfg, "behaviour": b, "real": real, "mismatches": bad, "q": q, "mode": mode, "style": style}
-            where = "%s [%s q=%s mode=%s style=%s]" % (prop, label, q, mode, style)
+            case = {"config": cfg, "behaviour": b, "real": real, "mismatches": bad, "q": q, "mode": mode, "style": style, "off": off}
+            where = "%s [%s q=%s mode=%s style=%s%s]" % (prop, label, q, mode, style, " start tyme %s" % ((cfg["T0"] - off) * q) if off else "")
             if real["phase"] == "escaped:Hang":
                 # the scheduler did not return: no property of a run can be said to hold on it
                 ctx.violation("%s: the real run did not return within %ss (model: %s)" % (where, core.WATCHDOG_S, b["phase"]), case)
